@@ -50,7 +50,12 @@ BASE_QUERIES = [
 BASE_QUERIES += ['A[] forall (i : int[0,32767]) v0 < i + 1', 'A[] forall (i : int[-32768,5]) v0 > i - 1', 'A[] exists (i : int[-32768,32767]) v0 == i', 'A[] forall (i : int[1,32767]) v0 < i',
                  'A[] forall (i : int[0,32766]) v0 <= i', 'A[] forall (i : int[-32767,32767]) v0 != i', 'E<> sum (i : int[0,32767]) i > v0', 'A[] forall (i : int[0,3]) forall (j : int[-32768,3]) v0 < i + j + 40000',
                  'A[] forall (i : int) v0 != i || v0 == i']
-QUERIES = list(BASE_QUERIES)          # imported by C19
+# string literals (file names of strategies): blanks, slashes, dots, backslashes written doubled and single, an escaped quote; the name of the saved strategy is
+# declared by an earlier query of the session, which the one-query-per-builder harness does not have: only that diagnostic is tolerated for saveStrategy
+STRING_QUERIES = ['strategy S3 = loadStrategy {v0} -> {x0} ("dir/sub dir/f.v1.json")', r'strategy S4 = loadStrategy {v0} -> {x0} ("C:\\out\\s.json")', r'strategy S5 = loadStrategy {v0} -> {x0} ("C:\out\s.json")',
+                 r'strategy S6 = loadStrategy {v0} -> {x0} ("a\\\\b")', 'strategy S7 = loadStrategy {} -> {} (" ")', 'saveStrategy("plain.json", S1)', r'saveStrategy("C:\\out\\s.json", S1)', r'saveStrategy("C:\out\s.json", S1)',
+                 'saveStrategy("dir/sub dir/f.json", S1)']
+QUERIES = list(BASE_QUERIES)          # imported by C19 (whose tree reader splits at blanks: the string queries stay here)
 
 
 def double_queries(rng, n):
@@ -89,7 +94,7 @@ def double_queries(rng, n):
 def check(run):
     thorough = run.tier == 'thorough'
     global QUERIES
-    QUERIES = BASE_QUERIES + double_queries(run.rng, 400 if thorough else 120)
+    QUERIES = BASE_QUERIES + STRING_QUERIES + double_queries(run.rng, 400 if thorough else 120)
     T = None
     try:
         T = exprgen.Table()
@@ -242,7 +247,8 @@ def check(run):
             for l in cm[2]:
                 k2, _, v = l.partition(' ')
                 d.setdefault(k2, v)
-            if d.get('accepted') != '1' or 'str' not in d:
+            undeclared_only = q.startswith('saveStrategy') and [l for l in cm[2] if l.startswith('error')] and all('strategy_not_declared' in l for l in cm[2] if l.startswith('error'))
+            if (d.get('accepted') != '1' and not undeclared_only) or 'str' not in d:
                 run.tie_broken('fixture query is not accepted by the library', dict(query=q, lines=cm[2][:3]))
                 continue
             s1 = d['str']
